@@ -132,13 +132,13 @@ type acquire struct {
 }
 
 type callSite struct {
-	Caller  string
-	Callees []string // resolved targets (full names)
-	Dynamic string   // non-empty: call through a function value (expression text)
-	Line    int
-	Held    heldSet           // local held at the call
-	Rename  map[string]string // caller instance expr -> callee instance name
-	ArgFresh map[int]argInfo  // -1 receiver, i argument i
+	Caller   string
+	Callees  []string // resolved targets (full names)
+	Dynamic  string   // non-empty: call through a function value (expression text)
+	Line     int
+	Held     heldSet           // local held at the call
+	Rename   map[string]string // caller instance expr -> callee instance name
+	ArgFresh map[int]argInfo   // -1 receiver, i argument i
 }
 
 // argInfo: is the object passed certainly unshared at the call? either created here (Fresh) or
@@ -158,13 +158,13 @@ type funcInfo struct {
 }
 
 var (
-	fset     = token.NewFileSet()
-	funcs    = map[string]*funcInfo{}
-	problems []string
-	syncLits = map[string]bool{}
-	tracked  = map[string]bool{} // package paths analysed
+	fset          = token.NewFileSet()
+	funcs         = map[string]*funcInfo{}
+	problems      []string
+	syncLits      = map[string]bool{}
+	tracked       = map[string]bool{}     // package paths analysed
 	methodsByName = map[string][]string{} // method name -> full names (for interface dispatch)
-	ifaceImpl = map[string][]string{}
+	ifaceImpl     = map[string][]string{}
 )
 
 func problem(format string, a ...interface{}) {
@@ -246,14 +246,14 @@ func funcFullName(f *types.Func) string {
 }
 
 type walker struct {
-	info   *types.Info
-	pkg    *types.Package
-	fn     *funcInfo
-	fresh  map[types.Object]bool
-	goSeen bool
-	recvNm string
-	params map[string]bool
-	inDefer bool
+	info     *types.Info
+	pkg      *types.Package
+	fn       *funcInfo
+	fresh    map[types.Object]bool
+	goSeen   bool
+	recvNm   string
+	params   map[string]bool
+	inDefer  bool
 	paramIdx map[types.Object]int
 }
 
@@ -378,6 +378,22 @@ func (w *walker) argInfoOf(e ast.Expr) argInfo {
 	return argInfo{false, -2}
 }
 
+// recordGlobal records an access to a package-level variable of an analysed package
+// (Struct = "<pkg>", Field = variable name).
+func (w *walker) recordGlobal(id *ast.Ident, kind string, held heldSet) {
+	obj, ok := w.info.Uses[id].(*types.Var)
+	if !ok || obj.Pkg() == nil || !tracked[obj.Pkg().Path()] || obj.IsField() || obj.Parent() != obj.Pkg().Scope() {
+		return
+	}
+	if isSyncType(obj.Type()) && kind != "W" {
+		return
+	}
+	w.fn.Accesses = append(w.fn.Accesses, access{
+		Struct: "var", Field: strings.TrimPrefix(obj.Pkg().Path(), modPath) + "." + obj.Name(), Kind: kind, Recv: "",
+		Fresh: false, BaseParam: -2, GoSeen: w.goSeen, Func: w.fn.Name, Line: fset.Position(id.Pos()).Line, Held: held.clone(),
+	})
+}
+
 func baseIdent(e ast.Expr) *ast.Ident {
 	for {
 		switch v := e.(type) {
@@ -409,6 +425,8 @@ func (w *walker) writeTarget(lhs ast.Expr, held heldSet) {
 		if s, ok := v.X.(*ast.SelectorExpr); ok {
 			w.recordAccess(s, "W", held)
 			w.expr(s.X, held)
+		} else if id, ok := v.X.(*ast.Ident); ok {
+			w.recordGlobal(id, "W", held)
 		} else {
 			w.expr(v.X, held)
 		}
@@ -418,6 +436,7 @@ func (w *walker) writeTarget(lhs ast.Expr, held heldSet) {
 	case *ast.ParenExpr:
 		w.writeTarget(v.X, held)
 	case *ast.Ident:
+		w.recordGlobal(v, "W", held)
 	default:
 		w.expr(lhs, held)
 	}
@@ -489,6 +508,28 @@ func implementsByName(full string, iface *types.Interface) bool {
 
 var typeMethods = map[string]map[string]bool{}
 
+// mutatingName: method names that change their receiver's state (by convention of the standard
+// library types Helios stores in fields: hash.Hash, bytes.Buffer, bufio.Writer, maps wrappers)
+func mutatingName(m string) bool {
+	for _, p := range []string{"Write", "Reset", "Set", "Add", "Delete", "Store", "Swap", "Push", "Pop", "Grow", "Truncate", "Append", "Insert", "Remove", "Clear", "Inc", "Dec"} {
+		if strings.HasPrefix(m, p) {
+			return true
+		}
+	}
+	return false
+}
+
+// foreignSafe: foreign types documented as safe for concurrent use, or per-request objects
+func foreignSafe(t types.Type) bool {
+	s := t.String()
+	for _, p := range []string{"net/http.ResponseWriter", "github.com/rs/zerolog", "net/http/httputil.ReverseProxy", "net/http.Server", "context.", "net/http.Header"} {
+		if strings.Contains(s, p) {
+			return true
+		}
+	}
+	return false
+}
+
 func (w *walker) isConversion(c *ast.CallExpr) bool {
 	tv, ok := w.info.Types[c.Fun]
 	return ok && tv.IsType()
@@ -504,6 +545,10 @@ func (w *walker) call(c *ast.CallExpr, held heldSet) {
 						if fs, isSel := u.X.(*ast.SelectorExpr); isSel {
 							w.recordAccess(fs, "A", held)
 							w.expr(fs.X, held)
+							continue
+						}
+						if gid, isId := u.X.(*ast.Ident); isId {
+							w.recordGlobal(gid, "A", held)
 							continue
 						}
 					}
@@ -554,6 +599,29 @@ func (w *walker) call(c *ast.CallExpr, held heldSet) {
 		if sel, ok := w.info.Selections[f]; ok && sel.Kind() == types.FieldVal {
 			w.recordAccess(f, "R", held)
 		}
+		// x.f.M(...) where f holds a value of a foreign, not internally synchronised type and M
+		// is a mutating method by name: the call writes the object held in f
+		if inner, ok := f.X.(*ast.SelectorExpr); ok && mutatingName(f.Sel.Name) {
+			if isel, ok := w.info.Selections[inner]; ok && isel.Kind() == types.FieldVal {
+				if msel, ok := w.info.Selections[f]; ok && msel.Kind() == types.MethodVal {
+					ft := isel.Obj().Type()
+					// a value receiver cannot change the object held in the field
+					if fn, isFn := msel.Obj().(*types.Func); isFn {
+						if sig, isSig := fn.Type().(*types.Signature); isSig && sig.Recv() != nil {
+							_, ptrRecv := sig.Recv().Type().(*types.Pointer)
+							_, ifaceRecv := sig.Recv().Type().Underlying().(*types.Interface)
+							if !ptrRecv && !ifaceRecv {
+								ft = nil
+							}
+						}
+					}
+					if ft == nil {
+					} else if n := namedOf(ft); (n == nil || n.Obj().Pkg() == nil || !tracked[n.Obj().Pkg().Path()]) && !isSyncType(ft) && !foreignSafe(ft) {
+						w.recordAccess(inner, "W", held)
+					}
+				}
+			}
+		}
 		w.expr(f.X, held)
 	case *ast.FuncLit:
 		walkLiteral(w, f, held, "iife")
@@ -564,7 +632,15 @@ func (w *walker) call(c *ast.CallExpr, held heldSet) {
 			// literals handed to these run before the call returns, on the caller's goroutine,
 			// with the caller's locks; anything else may keep the literal and run it later
 			last := calleeLabel[strings.LastIndex(calleeLabel, ".")+1:]
-			if last == "Range" || last == "Execute" || last == "Slice" || last == "Do" {
+			onceDo := false
+			if sel, isSel := c.Fun.(*ast.SelectorExpr); isSel && last == "Do" {
+				if tv, have := w.info.Types[sel.X]; have && isSyncType(tv.Type, "Once") {
+					onceDo = true // sync.Once.Do runs the literal before it returns: stdlib contract
+				}
+			}
+			if onceDo {
+				walkLiteral(w, fl, held, "sync")
+			} else if last == "Range" || last == "Execute" || last == "Slice" || last == "Do" {
 				syncLits[calleeLabel] = true
 				walkLiteral(w, fl, held, "sync")
 			} else {
@@ -639,7 +715,9 @@ func (w *walker) expr(e ast.Expr, held heldSet) {
 		}
 	case *ast.FuncLit:
 		walkLiteral(w, v, nil, "value")
-	case *ast.Ident, *ast.BasicLit, *ast.ArrayType, *ast.MapType, *ast.FuncType, *ast.InterfaceType, *ast.ChanType, *ast.StructType, *ast.Ellipsis:
+	case *ast.Ident:
+		w.recordGlobal(v, "R", held)
+	case *ast.BasicLit, *ast.ArrayType, *ast.MapType, *ast.FuncType, *ast.InterfaceType, *ast.ChanType, *ast.StructType, *ast.Ellipsis:
 	default:
 		problem("%s: unhandled expression %T at line %d", w.fn.Name, e, fset.Position(e.Pos()).Line)
 	}
@@ -1108,6 +1186,10 @@ func main() {
 					continue
 				}
 				name := funcFullName(obj)
+				if fd.Recv == nil && fd.Name.Name == "init" {
+					// a package may have many init functions: one name per file
+					name += "#" + filepath.Base(fset.Position(fd.Pos()).Filename)
+				}
 				fi := &funcInfo{Name: name, Exported: ast.IsExported(fd.Name.Name)}
 				funcs[name] = fi
 				w := &walker{info: l.info, pkg: l.pkg, fn: fi, fresh: freshSets[name], params: map[string]bool{}, paramIdx: paramObjects(l.info, fd)}
@@ -1541,7 +1623,7 @@ func analyse() {
 	}
 	isEntry := func(n string) bool {
 		f := funcs[n]
-		return f.Exported || f.Escapes || escapes[n] || len(sites[n]) == 0 || strings.HasSuffix(n, ".main") || strings.HasSuffix(n, ".init")
+		return f.Exported || f.Escapes || escapes[n] || len(sites[n]) == 0 || strings.HasSuffix(n, ".main") || strings.Contains(n, ".init#")
 	}
 	// must-hold at entry: greatest fixpoint of the intersection over call sites
 	top := heldSet{{"⊤", "", ""}}
@@ -1750,6 +1832,40 @@ func analyse() {
 	}
 	sort.Strings(dyn)
 	fmt.Fprintf(&b, "def dynamicCallsUnderLock : List String := [%s]\n\n", strings.Join(dyn, ", "))
+
+	// functions that write a package-level variable, with their static callers: a variable that
+	// is only written during package initialisation needs no lock
+	var gw []string
+	for _, n := range names {
+		writes := false
+		for _, a := range funcs[n].Accesses {
+			if a.Struct == "var" && a.Kind == "W" {
+				writes = true
+			}
+		}
+		if !writes {
+			continue
+		}
+		seen := map[string]bool{}
+		var callers []string
+		for _, cs := range sites[n] {
+			if !seen[cs.Caller] {
+				seen[cs.Caller] = true
+				callers = append(callers, leanStr(cs.Caller))
+			}
+		}
+		sort.Strings(callers)
+		gw = append(gw, fmt.Sprintf("  (%s, [%s], %v)", leanStr(n), strings.Join(callers, ", "), funcs[n].Escapes || escapes[n]))
+	}
+	fmt.Fprintf(&b, "def globalWriterCallers : List (String × List String × Bool) := [\n%s]\n\n", strings.Join(gw, ",\n"))
+
+	var inits []string
+	for _, n := range names {
+		if strings.Contains(n, ".init#") {
+			inits = append(inits, leanStr(n))
+		}
+	}
+	fmt.Fprintf(&b, "def initFuncs : List String := [%s]\n\n", strings.Join(inits, ", "))
 
 	sort.Strings(releases)
 	for i := range releases {
